@@ -27,9 +27,43 @@ pub struct Case {
     pub queries: Vec<Query>,
     /// p-values as mantissa/exponent: p = m/1000 * 10^-e, plus exact tail picks
     pub pvalues: Vec<(u16, u8)>,
+    /// how the matrix object came to be and how its distribution is asked for: 0 = built directly,
+    /// `to_score_distribution()`; 1 (DNA) = the reverse complement of the mirror-image matrix, AFTER that matrix was
+    /// asked for its own distribution - same cells, same background, a different history; 2 = a clone of a matrix
+    /// that was asked before; 3 = `ScoreDistribution::from(&matrix)`
+    #[serde(default)]
+    pub route: u8,
 }
 
 pub struct Dist;
+
+/// The matrix of the case as an object with a history (see `Case::route`).
+fn matrix_with_history<A: Alphabet>(case: &Case) -> ScoringMatrix<A> {
+    let direct: ScoringMatrix<A> = build_pssm::<A>(&case.mat);
+    match case.route {
+        1 if case.abc == Abc::Dna => {
+            const COMP: [usize; 5] = [2, 3, 0, 1, 4];
+            let rows: Vec<Vec<Fl>> = case.mat.rows.iter().rev().map(|r| (0..5).map(|j| r[COMP[j]]).collect()).collect();
+            let mirror = build_pssm::<lightmotif::abc::Dna>(&MatSpec { rows, bg: case.mat.bg.clone(), regime: case.mat.regime.clone() });
+            let _ = mirror.to_score_distribution();
+            let back = mirror.reverse_complement();
+            // same cells and background as the direct matrix (the alphabet is DNA here: rebuild it in the generic type)
+            let same = (0..case.mat.m()).all(|i| (0..5).all(|j| back.matrix()[i][j].to_bits() == direct.matrix()[i][j].to_bits()));
+            assert!(same, "harness: rc(mirror) must reproduce the cells");
+            // hand the object over under the generic alphabet type
+            let any: Box<dyn std::any::Any> = Box::new(back);
+            match any.downcast::<ScoringMatrix<A>>() {
+                Ok(b) => *b,
+                Err(_) => direct,
+            }
+        }
+        2 => {
+            let _ = direct.to_score_distribution();
+            direct.clone()
+        }
+        _ => direct,
+    }
+}
 
 pub fn exact_limit(abc: Abc, tier: Tier) -> usize {
     match abc {
@@ -93,9 +127,9 @@ fn strategy(tier: Tier) -> BoxedStrategy<Case> {
                 1 => Just(Query::AboveMax),
                 2 => (-200.0f32..200.0).prop_map(|v| Query::Value(Fl(v))),
             ];
-            (Just(abc), mat, proptest::collection::vec(q, 8..=20), proptest::collection::vec((1u16..=999, 0u8..=9), 0..=8))
+            (Just(abc), mat, proptest::collection::vec(q, 8..=20), proptest::collection::vec((1u16..=999, 0u8..=9), 0..=8), prop_oneof![3 => Just(0u8), 3 => Just(1u8), 1 => Just(2u8), 1 => Just(3u8)])
         })
-        .prop_map(|(abc, mat, queries, pvalues)| Case { abc, mat, queries, pvalues })
+        .prop_map(|(abc, mat, queries, pvalues, route)| Case { abc, mat, queries, pvalues, route })
         .boxed()
 }
 
@@ -103,8 +137,9 @@ fn run<A: Alphabet>(case: &Case, tier_limit: usize, info: &mut CaseInfo) -> Opti
     let k = case.abc.k();
     let cells = case.mat.cells();
     let m = cells.len();
-    let pssm: ScoringMatrix<A> = build_pssm::<A>(&case.mat);
-    let dist = pssm.to_score_distribution();
+    let pssm: ScoringMatrix<A> = matrix_with_history::<A>(case);
+    let dist = if case.route == 3 { lightmotif::pwm::dist::ScoreDistribution::from(&pssm) } else { pssm.to_score_distribution() };
+    info.class_if(case.route == 1 && case.abc == Abc::Dna, "matrix=rc(mirror)-after-the-mirror's-distribution");
     let sf = dist.sf();
     // --- structural: values in [0,1], non-increasing
     for (i, &v) in sf.iter().enumerate() {
@@ -273,7 +308,7 @@ impl Sub for Dist {
         "meme-dist"
     }
     fn rule(&self) -> &'static str {
-        "DNA width 1..8 (quick) / ..16 (thorough, meet-in-the-middle), protein 1..3 / ..4, plus wider matrices for the structural parts; library-made and arbitrary finite cells (|cell| <= 32, rows of equal cells, finite or -inf wildcard column; also cells confined to a short interval base + [0, 0.05..2.5) away from zero, so that all cells have one sign and may share one unit interval) x uniform / non-uniform / zero-entry / non-zero-wildcard backgrounds; 8..20 queries per matrix (attainable scores, midpoints, below min, above max, arbitrary, and scores of magnitude 1e7 .. f32::MAX) and up to 12 p-values; oracle: sf in [0,1] non-increasing, P(S>=s+d) <= pvalue(s) <= P(S>=s-d) against the exact enumeration with d=(M/2+1)/scale, pvalue monotone, pvalue(score(p)) <= p; non-trivial = exact oracle available, M >= 2, >= 3 distinct attainable scores and a query strictly inside (min, max)"
+        "DNA width 1..8 (quick) / ..16 (thorough, meet-in-the-middle), protein 1..3 / ..4, plus wider matrices for the structural parts; library-made and arbitrary finite cells (|cell| <= 32, rows of equal cells, finite or -inf wildcard column; also cells confined to a short interval base + [0, 0.05..2.5) away from zero, so that all cells have one sign and may share one unit interval) x uniform / non-uniform / zero-entry / non-zero-wildcard backgrounds; the matrix object built directly, or (DNA, 3 in 8) obtained as the reverse complement of its mirror image after the mirror image was asked for its own distribution, or cloned from a matrix asked before, the table through to_score_distribution() or ScoreDistribution::from; 8..20 queries per matrix (attainable scores, midpoints, below min, above max, arbitrary, and scores of magnitude 1e7 .. f32::MAX) and up to 12 p-values; oracle: sf in [0,1] non-increasing, P(S>=s+d) <= pvalue(s) <= P(S>=s-d) against the exact enumeration with d=(M/2+1)/scale, pvalue monotone, pvalue(score(p)) <= p; non-trivial = exact oracle available, M >= 2, >= 3 distinct attainable scores and a query strictly inside (min, max)"
     }
     fn cases(&self, tier: Tier) -> u64 {
         tier.pick(10_000, 300_000)
